@@ -305,7 +305,11 @@ func (f *OptionalField) DoRead(r io.ReadSeeker, pg Page) (io.Reader, []int, erro
 			if err != nil {
 				return nil, nil, err
 			}
-			f.Reps = append(f.Reps, reps[:int(ph.DataPageHeader.NumValues)]...)
+			reps, err = pageLevels(reps, ph.DataPageHeader.NumValues)
+			if err != nil {
+				return nil, nil, err
+			}
+			f.Reps = append(f.Reps, reps...)
 			l += l2
 		}
 
@@ -315,7 +319,10 @@ func (f *OptionalField) DoRead(r io.ReadSeeker, pg Page) (io.Reader, []int, erro
 		}
 		// only the first NumValues levels belong to the page; the rest is
 		// padding of the last bit-packed group and may hold anything
-		defs = defs[:int(ph.DataPageHeader.NumValues)]
+		defs, err = pageLevels(defs, ph.DataPageHeader.NumValues)
+		if err != nil {
+			return nil, nil, err
+		}
 		f.Defs = append(f.Defs, defs...)
 		l += l2
 
@@ -471,6 +478,15 @@ func writeLevels(w io.Writer, levels []uint8, width int32) error {
 	}
 	_, err := w.Write(enc.Bytes())
 	return err
+}
+
+// pageLevels returns the n levels that belong to a page.  A page whose level
+// section decodes to fewer levels than its header announces is corrupt.
+func pageLevels(levels []uint8, n int32) ([]uint8, error) {
+	if n < 0 || int(n) > len(levels) {
+		return nil, fmt.Errorf("invalid page: %d levels decoded, page header has num_values %d", len(levels), n)
+	}
+	return levels[:n], nil
 }
 
 // readLevels reads the RLE/bitpack encoded definition and repetition levels
